@@ -36,28 +36,28 @@ CHECKS = {
             "Capture events of a step must lie after all events of the previous step and before every chain event of the step, in (branch, position) order, exactly once; in spawning kinds one capture per run is held so that an un-hoisted capture overlaps with sibling events.",
             "Iterator-operator operands and both fold operands are covered by the zoo corpus.", "3/C11"),
     "C12": ("probe", "exploration", "runtime monitoring: snapshots of `let` names inside later captures compared with the model",
-            "Snapshots are taken in every later step (also after the named branch finished) and must equal the model's latest step result (still wrapped in try macros); the result must equal the model's (which ignores names).",
+            "Snapshots are taken in every later step (also after the named branch finished) and must equal the model's latest step result (still wrapped in try macros); the result must equal the model's (which ignores names). A names matrix assigns {unnamed, let, let mut} to every branch of small equal- and unequal-depth profiles; names are spelled plainly, as raw identifiers, through macro_rules parameters and inside invocations forwarded through a macro_rules wrapper; scope programs give the caller variables of the same names and types.",
             "Names are only observable from capture blocks, as in the property.", "3/C12"),
     "C13": ("probe", "exploration", "runtime monitoring: handler events (count, arguments) and results vs model under failure placements",
-            "map/and_then only on success, then always, exactly once, arguments in branch order, async handler futures awaited (their gate must be passed before completion). Compile-time rejection of wrong-kind / duplicate handlers is checked by the lab engine (see C15 evidence).",
+            "map/and_then only on success, then always, exactly once, arguments in branch order, async handler futures awaited (their gate must be passed before completion); scope programs check that the macro's value is f(..) for the f the user wrote (a handler that captures caller variables named like let-named branches), with the handler at every position. Compile-time rejection of wrong-kind / duplicate handlers is checked by the lab engine (see C15 evidence).",
             "Handler kinds per macro are the legal ones; illegal ones are exercised at site E1.", "3/C13"),
     "C16": ("probe", "exploration", "runtime monitoring: joiner events (count, arity, position) and stamped values vs model",
             "custom_joiner invoked once per step with >1 active branches, with that arity, inside its step; stamped values prove that the joiner output is used; lazy_branches(true) joiner calls its arguments (anything else does not compile); transpose_results(false) joiner output treated as the transposed Result.",
             "Option order/duplicates and futures_crate_path are checked at site E1 by the lab engine.", "3/C16"),
     "C18": ("probe", "fault_enumeration", "runtime fault injection: a panic at every probe position, catch_unwind at the caller, later-step monitor",
-            "One run per (program, macro, position) with a panic injected in a value, operand expression, callback, capture, handler expression or handler call; the caller must observe a panic, no later-step event may exist, and the evaluation must return (bounded progress).",
+            "One run per (program, macro, position) with a panic injected in a value, operand expression, callback, capture, handler expression or handler call; the caller must observe a panic, no later-step event may exist, and the evaluation must return (bounded progress); positions in steps with two or more branches are run again with siblings parked at gates (async: all siblings; threads: the higher-index ones, handles being joined in branch order) and the panic must reach the caller while they are parked.",
             "Payload preservation is not required by the property.", "3/C18"),
     "C01": ("zoo", "exploration", "runtime differential monitoring: macro invocation vs the documented method chain compiled into the same binary (value + callback trace equality)",
             "Type-directed chains over Option/Result/Iterator/plain worlds (also inside async macros), coverage-forced over every (world, operator, operand spelling) transition, wrappers and sampled operator pairs, then random walks; every chain runs on all input shapes; value and per-branch callback traces must equal the plain-Rust twin; a twin whose reference compiles but whose macro form does not is a violation.",
             "Independent of join_impl; depends on rustc/std/futures for the meaning of the methods. Future/Stream worlds: see DESIGN.md section 3/C01 for what is covered.", "3/C01"),
     "C02": ("zoo", "exploration", "runtime differential monitoring: wrapped chains vs hand-nested closures (value + callback trace equality)",
-            "The zoo twins that contain `>>>`: all ten wrapper operators, nesting depth 1-3, empty inner chains, inner block captures (sync kinds), explicit vs implicit closing, operators after `<<<`.",
+            "The zoo twins that contain `>>>`: all ten wrapper operators, nesting depth 1-3, empty inner chains, inner block captures (sync kinds), explicit vs implicit closing (also several levels closed at once), operators after `<<<`, and coverage-forced shapes where a wrapper is left open at a step end and the next step starts with a deferred wrapper or operator.",
             "Same trusted base as C01.", "3/C02"),
     "C17": ("zoo", "exploration", "runtime differential monitoring on large-index and nested programs (value, capture counts, thread names vs plain Rust)",
-            "24 branches x 24 actions in one step with a distinct capture on every action (12 x 12 for thread/async kinds), multi-step shapes up to 12 steps, both fold operands captured; every ordered pair of the 12 macros nested in operand, capture and handler position (thorough: triples); results must equal plain arithmetic, captures must be evaluated exactly once, innermost branches must see the inherited thread names.",
+            "24 branches x 24 actions in one step with a distinct capture on every action (12 x 12 for thread/async kinds), multi-step shapes up to 12 steps, both fold operands captured; every ordered pair of the 12 macros nested in operand, capture and handler position (thorough: triples); results must equal plain arithmetic, captures must be evaluated exactly once, innermost branches must see the inherited thread names. Half of the shards are compiled in a module that has its own items called futures, tokio, std, core, alloc and join (paths the expansion uses for itself must not be captured by them).",
             "Index bound 24 and nesting depth 2 (3 in thorough) as in the property's quantifier.", "3/C17"),
     "C19": ("zoo", "exploration", "runtime monitoring with a counting global allocator (armed per thread around the macro evaluation) + compile/run of bounds programs",
-            "Allocation: allocation-free chains for join!/try_join! (twin-checked values) must cause 0 allocations; a control allocation must be counted (monitor self-test). Bounds: move-only, !Send and borrowing (& and &mut, captures, handlers, names) programs must compile under the macros the property names and evaluate to the expected values; thorough also in release builds.",
+            "Allocation: allocation-free chains for join!/try_join! (twin-checked values) must cause 0 allocations; a control allocation must be counted (monitor self-test). Bounds: move-only, !Send and borrowing (& and &mut, captures, handlers, names) programs must compile under the macros the property names and evaluate to the expected values; a caller-stack matrix puts a closure that touches a caller local at wrapper depth 0-2 under four operators and four kinds of local, and spells the first value as a place expression (bare variable, parenthesized, field, index, deref) followed by a borrowing method, the place being observed afterwards; thorough also in release builds.",
             "Bounds are observed through rustc accepting sampled programs; it is evidence over those programs only.", "3/C19"),
     "C14": ("lab", "exploration", "runtime monitoring of the real parser (join_impl linked as a library): structure round trip through public accessors",
             "Random and systematically enumerated chain structures are rendered to DSL text, parsed by the real parser, and the parsed structure (operators, `~`, `>>>`/`<<<`, operand token strings, branch boundaries, `let` names, handler, options) must equal the generated one. All ordered operator pairs x flags, every operator x every adversarial operand, random chains up to 30 actions. Operands are admitted by an independent splitter so the oracle never demands more than the property's side condition.",
@@ -66,7 +66,7 @@ CHECKS = {
             "Every input ends in exactly one outcome class; internal panics, accepted structurally invalid inputs, outputs that are not a syntactically valid expression and non-termination are violations. Labelled mutations cover every invalidity named in the property, plus random token soups; the same illegal inputs are compiled through the 12 real macros by rustc (each must be an error at its own line, never a proc-macro panic).",
             "Wrong-kind handler and futures_crate_path-on-sync rejections are raised by the generator as labelled configuration errors (panic with message), which is the pinned behaviour.", "3/C15"),
     "C20": ("lab", "exploration", "runtime monitoring: repeated and concurrent expansion of the real expander, token-string comparison (thorough: Miri data-race/UB interpreter on a 4-thread smoke run)",
-            "Each (input, config) is expanded 4x sequentially in shuffled orders and 64x from 16 threads; all outputs must be identical strings. Thorough tier additionally interprets a concurrent expansion under Miri (fn-pointer-through-union read, Send/Sync claims, hidden statics).",
+            "Each (input, config) is expanded 4x sequentially in shuffled orders and 64x from 16 threads; all outputs must be identical strings; the same holds across two fresh processes that differ in working directory, environment variables, locale and input order, and under a second lexer version with inputs that make single expansions fail or panic. Thorough tier additionally interprets a concurrent expansion under Miri (fn-pointer-through-union read, Send/Sync claims, hidden statics).",
             "Miri sub-check uses proc-macro2 1.0.106 instead of 1.0.51 (nightly cannot build the latter).", "3/C20"),
 }
 
@@ -114,7 +114,7 @@ m = {
     ],
     "checks": checks,
     "not_applicable": na,
-    "notes": "Six genuine defects were repaired by fix: commits in /repo (12857a3 C05, adad8bc C15, d8b5a10 C14, afb8dd7 C01, d743b69 C15/C16, fb5f9af C15); see KNOWN_FINDINGS.txt and DESIGN.md section 5.",
+    "notes": "Six genuine defects were repaired by fix: commits in /repo (12857a3 C05, adad8bc C15, d8b5a10 C14, afb8dd7 C01, d743b69 C15/C16, fb5f9af C15); one more is recorded as a known finding (C15: a C-string literal operand makes the macro panic inside syn 1); see KNOWN_FINDINGS.txt and DESIGN.md section 5.",
 }
 json.dump(m, open(os.path.join(ROOT, "MANIFEST.json"), "w"), indent=1)
 print("checks=%d not_applicable=%d" % (len(checks), len(na)))
